@@ -1,3 +1,4 @@
+import RavenModel.Model.MimeWriter
 import RavenModel.Model.Mime
 import RavenModel.Model.PartTree
 import RavenModel.Model.Headers
@@ -112,5 +113,28 @@ theorem tree_as_written_refuted : ¬ tree_as_written_full := by
   set_option maxRecDepth 100000 in
   have h2 : (Mime.parse Mime.readHeader 2 (Mime.core spoiledTree)).map Mime.width = some 1 := by rw [h1]; rfl
   revert h2; decide
+
+/-! ## the writer after the repair (`Model/MimeWriter`): the boundary is chosen against the parts -/
+
+/-- C02.7  the writer's own test (`boundaryOccursIn`: no line of a rendered part begins with `--boundary` followed by the end
+of the line, white space or `--`) is at least as strict as the reader: a part that passes it is clean for the delimiter,
+whatever follows. -/
+theorem writer_test_implies_clean (b : Bytes) (hcr : 13 ∉ b) (core t : Bytes)
+    (h : Mime.flagged (Mime.DD ++ b) true (core ++ Mime.CRLF) = false) : Mime.clean (Mime.delim b) core t = true :=
+  Mime.clean_of_not_flagged b hcr core t true h
+
+/-- C02.7'  hence, with the boundary the lengthening loop settles on, the parts of a container are read back exactly as they
+were written **whatever octets they contain** — the side condition of C02.6 is discharged by the writer itself. -/
+theorem repaired_writer_reads_back (base : Bytes) (ps : List Bytes) (e : Bytes) (fuel : Nat) (b : Bytes) (hne : ps ≠ [])
+    (hb : Mime.chooseBoundary base ps fuel 0 = some b) (hcr : 13 ∉ b) :
+    Mime.splitBody b (Mime.joinBody b ps e) = some ps :=
+  Mime.repaired_writer_parts_read_back base ps e fuel b hne hb hcr
+
+-- non-vacuity: the part that spoiled the tree above fails the test for the first candidate and passes it for the second
+set_option maxRecDepth 100000 in
+example :
+    Mime.passes (b!"----=_Part_Mixed_3") [(b!"Content-Type: text/plain\r\n\r\nabove\r\n------=_Part_Mixed_3\r\nContent-Type: text/plain\r\n\r\nbelow")] = false ∧
+    Mime.passes (b!"----=_Part_Mixed_3_0") [(b!"Content-Type: text/plain\r\n\r\nabove\r\n------=_Part_Mixed_3\r\nContent-Type: text/plain\r\n\r\nbelow")] = true := by
+  decide
 
 end Raven.Props.C02
